@@ -179,6 +179,9 @@ def check(ctx):
     except mir.AnchorLost as e:
         ctx.fail("C04.g", "anchor-lost:runner", "", str(e))
 
+    import c02 as _c02
+    nrr = core.adopt(ctx, _c02, lambda o: o["rule"] == "C02.c" and "::replay:" in o["key"], "C04.f")
+    ctx.floor("C04.f", nrr, 5, "shared replay obligations (C02.c)")
     # ---- C04.f a run postponed by recursion is handed its own event's metadata (shared with C03.e / C12.a) ----
     nf = core.adopt(ctx, c03, lambda o: o["rule"] == "C03.e", "C04.f")
     ctx.floor("C04.f", nf, 12, "shared claim-order obligations (C03.e)")
